@@ -290,6 +290,10 @@ func runC10(c *Ctx, r *Report) {
 	importRules(c, r, "C09", []string{"R-C09.14"}, "R-C10.16", 0)
 	r.Doc("R-C10.17", "the constructors hand the caller's start entries / hashes to their loader as given: k, the number of entries the caller supplied, is what the loader counts and puts back")
 	startArgumentsReachLoaders(c, r, "R-C10.17")
+	r.Doc("R-C10.18", "the head scan over what a limited load kept is exact (adopted from C02: a supplied entry counted as referenced through a skip reference is in the entries and missing from the values)")
+	importRules(c, r, "C02", []string{"R-C02.1"}, "R-C10.18")
+	r.Doc("R-C10.19", "the fetch's deadline belongs to the fetch as a whole and the workers' shared state is touched under the fetcher's mutex (adopted from C11: a per-block deadline assigned to the context all workers share cancels the rest of the load after the first block — a limited load with any timeout returns one entry)")
+	importRules(c, r, "C11", []string{"R-C11.4", "R-C11.5", "R-C11.12"}, "R-C10.19")
 	r.Doc("R-C10.15", "nothing is allocated for the length limit itself: every sized allocation is bounded by a collection that exists (adopted from C15: a limit above the log's size returns the whole log)")
 	importRules(c, r, "C15", []string{"R-C15.15"}, "R-C10.15")
 	r.Doc("R-C10.12", "a fetched entry is never refused, and its predecessors never left unqueued, on a clock tie: wherever the fetcher compares an entry's clock time with a bound it tracks before admitting the entry or queueing its links, the condition is as true for an equal time as for a later one (the log's order breaks equal times by writer id, so a tied entry can still belong to the kept tail; treating it as older makes the outcome depend on block arrival order)")
